@@ -1,6 +1,7 @@
 package checks
 
 import (
+	"strings"
 	"time"
 
 	"verif/drv"
@@ -75,12 +76,16 @@ func alphabetIDs() []m.Op {
 			ins(c, doc(u3, "v", int64(9)), doc(u1, "v", int64(9))),                         // second may duplicate a stored id
 			m.Op{K: "save", Coll: c, Docs: []m.Doc{doc("", "v", int64(10))}},
 			m.Op{K: "save", Coll: c, Docs: []m.Doc{doc(u1, "v", int64(11))}},
+			m.Op{K: "saveStruct", Coll: c, Docs: []m.Doc{doc(u2, "v", int64(17))}},
 			m.Op{K: "save", Coll: c, Docs: []m.Doc{doc(u3, "v", int64(12))}},
 			m.Op{K: "replaceById", Coll: c, Id: u1, Docs: []m.Doc{doc(u1, "v", int64(13))}},
 			m.Op{K: "replaceById", Coll: c, Id: u1, Docs: []m.Doc{doc(u2, "v", int64(14))}},
 			m.Op{K: "replaceById", Coll: c, Id: u2, Docs: []m.Doc{doc("", "v", int64(15))}},
 			updID(c, u1, "copy", "_id", u2), updID(c, u1, "inplace", "_id", u3), updID(c, u2, "copy", "_id", "garbage"),
 			updID(c, u2, "inplace", "v", int64(16)),
+			// the same uuid spelled in upper case is a different _id string
+			m.Op{K: "replaceById", Coll: c, Id: u3, Docs: []m.Doc{doc(strings.ToUpper(u3), "v", int64(18))}},
+			updID(c, u3, "copy", "_id", strings.ToUpper(u3)),
 			m.Op{K: "update", Q: qOn(c, m.Leaf("eq", "_id", u1)), Set: setMap("_id", u3)},
 			m.Op{K: "updateFunc", Q: qOn(c, nil), Upd: &m.Updater{Set: setMap("_id", u2), Style: "inplace"}},
 			m.Op{K: "deleteById", Coll: c, Id: u1},
@@ -161,6 +166,8 @@ func probesNested() []*m.Q {
 	return append(out, &m.Q{Coll: "a", Sort: sortBy("n.a", 1)}, &m.Q{Coll: "a", Sort: sortBy("n", 1)})
 }
 
+type critPtr = *m.Crit
+
 func derivedQueries() []*m.Q {
 	x1 := m.Leaf("eq", "x", int64(1))
 	return []*m.Q{
@@ -169,6 +176,9 @@ func derivedQueries() []*m.Q {
 		{Coll: "a", LimitSet: true, Limit: 0}, {Coll: "a", SkipSet: true, Skip: 1, LimitSet: true, Limit: 1},
 		{Coll: "a", SkipSet: true, Skip: -1, LimitSet: true, Limit: -1}, {Coll: "a", Crit: m.Leaf("lte", "x", "s"), Sort: sortBy("x", -1), SkipSet: true, Skip: 1},
 		{Coll: "a", SortDef: true}, {Coll: "ab", Crit: x1},
+		// literals supplied as plain Go ints: normalisation must work on a copy, never on the caller's criteria
+		{Coll: "a", Crit: &m.Crit{Op: "in", Field: "x", Vals: []interface{}{int64(1), int64(2), "s"}, Kind: "int"}},
+		{Coll: "a", Crit: m.And(&m.Crit{Op: "contains", Field: "xy", Vals: []interface{}{int64(1)}, Kind: "int8"}, &m.Crit{Op: "eq", Field: "x", Val: int64(1), Kind: "uint16"})},
 	}
 }
 
